@@ -41,10 +41,10 @@ Proof. exact assignable_total. Qed.
    assignable from the writer type (members appended by the writer OR by the reader), every
    well-typed writer sample decodes into its projection on the reader type *)
 Theorem C39_evolution_decodes_appendable : forall V E tc t1 t2 xv,
-  flat_desc t1 = true -> flat_desc t2 = true -> codec_ok V t1 = true -> codec_ok V t2 = true ->
+  flat_desc t1 = true -> flat_desc t2 = true ->
   ad_ext t2 <> Mutable ->
   struct_assignable tc (cto_of t1) (cto_of t2) = Ok true ->
-  wt (ty_of t2) (VData xv) = true -> val_nonascii_char (VData xv) = false ->
+  wt (ty_of t2) (VData xv) = true ->
   exists bs d, encode V E (ty_of t2) (VData xv) = Ok bs /\
                decode (ty_of t1) bs = Ok (VData d) /\ projects t1 xv d = true.
 Proof. exact evolution_prefix. Qed.
@@ -54,7 +54,7 @@ Theorem C39_evolution_decodes_mutable : forall E tc t1 t2 xv,
   flat_desc t1 = true -> flat_desc t2 = true -> ad_ext t2 = Mutable ->
   ids_u16 t1 = true -> ids_u16 t2 = true ->
   struct_assignable tc (cto_of t1) (cto_of t2) = Ok true ->
-  wt (ty_of t2) (VData xv) = true -> val_nonascii_char (VData xv) = false -> small_dyn xv = true ->
+  wt (ty_of t2) (VData xv) = true -> small_dyn xv = true ->
   exists bs d, encode V2 E (ty_of t2) (VData xv) = Ok bs /\
                decode (ty_of t1) bs = Ok (VData d) /\ projects t1 xv d = true.
 Proof. exact evolution_mutable. Qed.
